@@ -1,6 +1,6 @@
 //! Executes scenarios (TLC-generated or hand-written) step by step on a fresh instance.
 use crate::ops::{exec, stream_open, AckRef, CallSpec, StreamHandle, HANG_LIMIT};
-use crate::world::World;
+use crate::world::{write_event, Out, World};
 use serde::Deserialize;
 use serde_json::{json, Value};
 use std::collections::HashMap;
@@ -49,8 +49,16 @@ pub async fn settle() {
     tokio::time::sleep(Duration::from_millis(1)).await;
 }
 
-pub async fn run_scenario(scenario: &Scenario) -> Vec<Value> {
-    let world = World::start(scenario.cap, scenario.phase).await;
+pub async fn run_scenario(scenario: &Scenario, out: Option<Out>) -> Vec<Value> {
+    let header = json!({
+        "k": "reset", "i": -1, "t": 0, "run": scenario.id, "cap": if scenario.cap == 0 { 16 } else { scenario.cap },
+        "seed": scenario.seed, "meta": scenario.meta,
+    });
+    if let Some(out) = &out {
+        write_event(out, header.clone());
+    }
+    let streaming = out.is_some();
+    let world = World::start(scenario.cap, scenario.phase, out).await;
     let mut calls: HashMap<String, (usize, tokio::task::JoinHandle<()>)> = HashMap::new();
     let mut streams: HashMap<String, StreamHandle> = HashMap::new();
 
@@ -155,11 +163,11 @@ pub async fn run_scenario(scenario: &Scenario) -> Vec<Value> {
         s.abandon(&world);
     }
     world.ev("end", json!({}));
-    let mut events = vec![json!({
-        "k": "reset", "i": -1, "t": 0, "run": scenario.id, "cap": if scenario.cap == 0 { 16 } else { scenario.cap },
-        "seed": scenario.seed, "meta": scenario.meta,
-    })];
-    events.extend(world.take_events());
+    let mut events = Vec::new();
+    if !streaming {
+        events.push(header);
+        events.extend(world.take_events());
+    }
     deltio::verif::install_local(None);
     events
 }
